@@ -6,11 +6,15 @@ from .frontend import AnalysisError, src
 
 
 class Rule:
-    def __init__(self, ctx, rid, desc, floor=1):
+    def __init__(self, ctx, rid, desc, floor=1, observational=False):
         self.ctx = ctx
         self.id = rid
         self.desc = desc
         self.floor = floor
+        # observational: a finding of this rule means that a forbidden construct WAS SEEN (an alias of an operand's storage, a store
+        # without a guard); a discharge only means that none was seen.  Such a finding on the normal form is evidence from an equivalent
+        # program and stands even where the run on the source as written examined the construct and saw nothing.
+        self.observational = observational
         self.instances = []       # dict(construct, fact, where, ok)
         self.findings = []
         self.notes = []
@@ -59,8 +63,8 @@ class Ctx:
         self.not_decided = []
         self.extra = {}
 
-    def rule(self, rid, desc, floor=1):
-        r = Rule(self, '%s-%s' % (self.pid, rid), desc, floor)
+    def rule(self, rid, desc, floor=1, observational=False):
+        r = Rule(self, '%s-%s' % (self.pid, rid), desc, floor, observational)
         self.rules.append(r)
         return r
 
